@@ -323,7 +323,8 @@ func largeFileReceive(wrt http.ResponseWriter, req *http.Request) {
 		return
 	}
 
-	fdef, err = store.Files.FinishUpload(fdef, true, size)
+	// On failure FinishUpload returns nil instead of the record: keep fdef for the cleanup.
+	finished, err := store.Files.FinishUpload(fdef, true, size)
 	if err != nil {
 		logs.Info.Println("media upload: failed to finalize", file, "key", fdef.Location, err)
 		// Best effort cleanup.
@@ -331,6 +332,7 @@ func largeFileReceive(wrt http.ResponseWriter, req *http.Request) {
 		writeHttpResponse(decodeStoreError(err, msgID, now, nil), err)
 		return
 	}
+	fdef = finished
 
 	params := map[string]string{"url": url}
 	if globals.mediaGcPeriod > 0 {
